@@ -25,11 +25,88 @@ CGCACHE = "/var/tmp/hawkverif-cgcache"
 FAMILIES = ["paren", "unary", "not", "left", "concat", "assign", "ternary", "block", "if", "elseif", "while",
             "index", "call", "recur", "map", "regex", "dollar", "getline", "pipe", "incl", "seq"]
 
+# A family name may carry a variant: `base:variant`.
+#   left:<level> / free:<level>  binary chain cycling through ALL operators of one level of the parser's precedence ladder
+#                                (one parse_binary() call builds the whole level as one left-leaning chain);
+#                                left = evaluated, free = inside a function that is never called: parsed and freed only
+#   recurpad:A,P,K               recursion through a function called with A arguments that declares P more (nil padding),
+#                                in a program with K extra globals: K shifts the alignment of the frames against the limit
+LEVELS = {"plus": ["+"], "cat": [" "], "add": ["+", "-"], "mul": ["*", "/", "%"], "rel": ["<", ">", "<=", ">="],
+          "eq": ["==", "!="], "shift": ["<<", ">>"], "match": ["~", "!~"]}
+CHAIN_FAMILIES = ["left:%s" % v for v in LEVELS if len(LEVELS[v]) > 1] + ["free:%s" % v for v in LEVELS]
+PAD_SHAPES = [(1, 1), (3, 4), (9, 8)]
+PAD_FAMILIES = ["recurpad:%d,%d,%d" % (a, p, k) for (a, p) in PAD_SHAPES for k in range(4 + a + p)]
+FAMILIES += CHAIN_FAMILIES + PAD_FAMILIES
+
+
+def base_of(fam):
+    return fam.split(":", 1)[0]
+
+
+def var_of(fam):
+    return fam.split(":", 1)[1] if ":" in fam else None
+
+
+def pad_params(fam):
+    a, p, k = (int(x) for x in var_of(fam).split(","))
+    return a, p, k
+
+
+def model_family(fam):
+    """name of the family in the Lean driver"""
+    b = base_of(fam)
+    return {"left": "left", "free": "chainfree"}.get(b, fam)
+
+
+def chain_text(ops, n):
+    if ops == [" "]:
+        return "a" + " a" * n
+    reps = n // len(ops) + 1
+    body = "".join(" %s a" % o for o in ops) * reps
+    # cut after n operators
+    parts = body.split(" a")[:n]
+    return "a" + "".join(x + " a" for x in parts)
+
+
+def chain_value(ops, n):
+    """value of the chain with a = 1 (python oracle)"""
+    v = 1
+    for i in range(n):
+        o = ops[i % len(ops)]
+        if o == "+": v = v + 1
+        elif o == "-": v = v - 1
+        elif o in ("*", "/"): v = v
+        elif o == "%": v = 0
+        elif o == "<": v = int(v < 1)
+        elif o == ">": v = int(v > 1)
+        elif o == "<=": v = int(v <= 1)
+        elif o == ">=": v = int(v >= 1)
+        elif o == "==": v = int(v == 1)
+        elif o == "!=": v = int(v != 1)
+        elif o == "<<": v = v << 1
+        elif o == ">>": v = v >> 1
+        elif o == "~": v = int("1" in str(v))
+        elif o == "!~": v = int("1" not in str(v))
+        else: raise ValueError(o)
+    return v
+
 
 # ----------------------------------------------------------------------------------------------------------
 # generated programs (one fixed program text per family and depth)
 # ----------------------------------------------------------------------------------------------------------
 def gen_program(fam, n):
+    b = base_of(fam)
+    if b == "left" and var_of(fam):
+        ops = LEVELS[var_of(fam)]
+        return "BEGIN { a=1; x = " + chain_text(ops, n) + "; print " + ("length(x)" if ops == [" "] else "x") + " }\n"
+    if b == "free":
+        return "function g() { a=1; x = " + chain_text(LEVELS[var_of(fam)], n) + "; } BEGIN { print 1 }\n"
+    if b == "recurpad":
+        A, P, K = pad_params(fam)
+        g = ("@global " + ", ".join("g%d" % i for i in range(K)) + ";\n") if K else ""
+        params = ["n"] + ["a%d" % i for i in range(1, A)] + ["p%d" % i for i in range(P)]
+        args = "".join(", %d" % i for i in range(1, A))
+        return g + "function f(%s) { if (n<=0) return 0; return 1+f(n-1%s) } BEGIN { print f(%d%s) }\n" % (", ".join(params), args, n, args)
     if fam == "paren":   return "BEGIN { a=1; x = " + "(" * n + "a" + ")" * n + "; print x }\n"
     if fam == "unary":   return "BEGIN { a=1; x = " + "- " * n + "a; print x }\n"
     if fam == "not":     return "BEGIN { a=1; x = " + "!" * n + "a; print x }\n"
@@ -68,6 +145,14 @@ def gen_incl(d, n):
 
 def expected_output(fam, n):
     """what the program prints when it runs to the end (python oracle, written independently of the Lean model)"""
+    b = base_of(fam)
+    if b == "left" and var_of(fam):
+        ops = LEVELS[var_of(fam)]
+        return str(n + 1) if ops == [" "] else str(chain_value(ops, n))
+    if b == "free":
+        return "1"
+    if b == "recurpad":
+        return str(n)
     if fam in ("paren", "assign", "block", "if", "elseif", "while", "index", "call", "regex", "seq"):
         return "1"
     if fam == "unary":
@@ -93,10 +178,29 @@ GOVERN = {
     "paren": ["ep"], "unary": ["ep", "er"], "not": ["ep", "er"], "left": ["er"], "concat": ["er"], "assign": ["ep", "er"],
     "ternary": ["ep", "er"], "block": ["bp", "br"], "index": ["ep", "er"], "call": ["ep", "er"], "recur": ["br", "er"],
     "dollar": ["ep", "er"], "getline": ["ep", "er"], "pipe": ["ep", "er"], "incl": ["incl"],
-    "if": [], "elseif": [], "while": [], "map": [], "regex": [], "seq": [],
+    "if": [], "elseif": [], "while": [], "map": [], "regex": [], "seq": [], "free": [], "recurpad": ["br", "er"],
 }
 # nesting that does not depend on n: with every limit at least this, the family must run whatever n is
 CONSTANT_NESTING = {"seq": 5}
+
+
+
+def stack_per_level(fam):
+    """value-stack slots that every nesting level of a family keeps occupied (python oracle); None: none"""
+    b = base_of(fam)
+    if b == "recur":
+        return 5
+    if b == "call":
+        return 4
+    if b == "recurpad":
+        A, P, K = pad_params(fam)
+        return 4 + A + P
+    return None
+
+
+def stack_eff_of(cfg, e):
+    return max(512, max([max(512, min(p, 2 ** 33)) for p in cfg.pragma], default=0) or e["stack"])
+
 
 # the limit that bounds the parser's own recursion for a family (none: the parser does not recurse per level)
 PARSE_GOV = {"paren": "ep", "unary": "ep", "not": "ep", "assign": "ep", "ternary": "ep", "index": "ep", "call": "ep",
@@ -129,7 +233,7 @@ class Cfg:
 
     def model_line(self, fam, n, dfl):
         e = self.eff(dfl)
-        return "%s %d %d %d %d %d %d %d %s" % (fam, n, e["incl"], e["bp"], e["br"], e["ep"], e["er"], e["stack"],
+        return "%s %d %d %d %d %d %d %d %s" % (model_family(fam), n, e["incl"], e["bp"], e["br"], e["ep"], e["er"], e["stack"],
                                                ",".join(str(p) for p in self.pragma) or "-")
 
     def text(self):
@@ -259,12 +363,16 @@ def max_depth(fam, cfg, tier):
         return 30000 if cfg.name == "cli" else 1000          # memory is quadratic in the nesting (known finding)
     if fam == "seq":
         return 100000 if cfg.name in ("cli", "small") else 3000
+    if base_of(fam) == "free":
+        return 1000000                                       # never evaluated: only the parser's loop and the destructor see it
+    if base_of(fam) == "recurpad":
+        return 12000
     if fam == "pipe" and (cfg.ep == 0):
         return 60                                            # every accepted level starts a shell
     # with the governing limit switched off (0) the property promises nothing beyond what the native stack takes:
     # the parser needs ~37 native frames per nesting level of an expression
     e = dict(ep=cfg.ep, er=cfg.er, bp=cfg.bp, br=cfg.br, incl=cfg.incl)
-    gov = GOVERN[fam]
+    gov = GOVERN[base_of(fam)]
     if fam in PARSE_GOV:
         if e[PARSE_GOV[fam]] == 0:
             return 1000
@@ -281,17 +389,34 @@ def boundary_depths(fam, cfg, dfl):
     """depths around the places where a limit is expected to bite (python side, coarse: limit/2 and limit)"""
     e = cfg.eff(dfl)
     out = set()
-    for k in GOVERN[fam]:
+    for k in GOVERN[base_of(fam)]:
         L = e[k]
         if L and L > 0:
             for c in (L, L // 2):
                 out.update(range(max(1, c - 4), c + 3))
-    if fam in ("recur", "call"):
-        S = max(512, max([max(512, min(p, 2 ** 33)) for p in cfg.pragma], default=0) or e["stack"])
-        for per in (4, 5):
-            c = (S - 26) // per
-            out.update(range(max(1, c - 3), c + 3))
+    per = stack_per_level(fam)
+    if per:
+        S = stack_eff_of(cfg, e)
+        c = (S - 26) // per
+        out.update(range(max(1, c - 4), c + 3))
+        out.add(2 * c + 3)                                   # far beyond what the value stack can hold
     return out
+
+
+def cfg_applies(fam, cfg, quick):
+    """which configurations a family is run under (the variant families would multiply the quick tier otherwise)"""
+    b = base_of(fam)
+    if fam == "incl" and cfg.pragma:
+        return False
+    if b in ("left", "free") and var_of(fam):
+        return cfg.name in ("cli", "small") if quick else True
+    if b == "recurpad":
+        A, P, K = pad_params(fam)
+        if cfg.name == "bigstack":
+            return False
+        if quick:
+            return cfg.name in ("cli", "nodepth512") or (K == 0 and cfg.name in ("small", "pragmamin", "pragma2", "runonly"))
+    return True
 
 
 def make_cases(ctx, dfl):
@@ -316,9 +441,15 @@ def make_cases(ctx, dfl):
     cases = {}
     for cfg in cfgs:
         for fam in FAMILIES:
-            if fam == "incl" and cfg.pragma:
+            if not cfg_applies(fam, cfg, quick):
                 continue
             mx = max_depth(fam, cfg, ctx.tier)
+            if base_of(fam) == "recurpad" and quick:
+                # the alignment sweep: only the depths around the capacity of the value stack (and of the depth limits)
+                for n in sorted(set(b for b in boundary_depths(fam, cfg, dfl) if b <= mx) | {1, 10}):
+                    c = Case(fam, n, cfg)
+                    cases[c.key()] = c
+                continue
             steps = set(g for g in GEOM if g <= mx)
             if cfg.name != "cli" and quick:
                 steps = set(g for g in steps if g <= 3000) | ({100000} if mx >= 100000 and cfg.name in ("small",) else set())
@@ -336,12 +467,17 @@ def make_cases(ctx, dfl):
 # ----------------------------------------------------------------------------------------------------------
 # deciding
 # ----------------------------------------------------------------------------------------------------------
+def sig_fam(fam):
+    """family part of a finding signature: the alignment sweep of recurpad is one class, an operator level is its own"""
+    return base_of(fam) if base_of(fam) == "recurpad" else fam
+
+
 def crash_sig(case, r):
     if r["cls"] == "sig11":
-        return "sigsegv:%s" % case.fam
+        return "sigsegv:%s" % sig_fam(case.fam)
     if r["cls"] == "timeout":
-        return "timeout:%s" % case.fam
-    return "%s:%s" % (r["cls"], case.fam)
+        return "timeout:%s" % sig_fam(case.fam)
+    return "%s:%s" % (r["cls"], sig_fam(case.fam))
 
 
 def oracle_case(case, r, dfl):
@@ -360,25 +496,29 @@ def oracle_case(case, r, dfl):
                 return []
         if r["code"] not in ERR_NEST:
             return [("%s family nested %d deep under %s stopped with error %s (%s), which is not a nesting/stack error" % (
-                fam, n, cfg.text(), r["code"], r.get("msg")), "other-error:%s" % fam)]
+                fam, n, cfg.text(), r["code"], r.get("msg")), "other-error:%s" % sig_fam(fam))]
     if r["cls"] == "ok":
         exp = expected_output(fam, n)
         if exp is not None and r["out"] != exp:
-            probs.append(("%s family nested %d deep under %s ran to the end but printed %r instead of %r" % (fam, n, cfg.text(), r["out"], exp), "wrong-output:%s" % fam))
+            probs.append(("%s family nested %d deep under %s ran to the end but printed %r instead of %r" % (fam, n, cfg.text(), r["out"], exp), "wrong-output:%s" % sig_fam(fam)))
     # coarse limit oracle: far beyond a positive governing limit -> must be stopped; far within all limits -> must run
     e = cfg.eff(dfl)
-    gov = GOVERN[fam]
+    gov = GOVERN[base_of(fam)]
     pos = [e[k] for k in gov if e[k] > 0]
     if pos and n > min(pos) + 2 and r["cls"] == "ok":
-        probs.append(("%s family nested %d deep ran normally although %s sets a limit of %d" % (fam, n, cfg.text(), min(pos)), "limit-ignored:%s" % fam))
+        probs.append(("%s family nested %d deep ran normally although %s sets a limit of %d" % (fam, n, cfg.text(), min(pos)), "limit-ignored:%s" % sig_fam(fam)))
+    per = stack_per_level(fam)
+    if per and r["cls"] == "ok" and per * n > stack_eff_of(cfg, e):
+        probs.append(("%s family nested %d deep ran normally although each level keeps %d slots of the value stack and the stack limit of %s is %d" % (
+            fam, n, per, cfg.text(), stack_eff_of(cfg, e)), "stack-limit-ignored:%s" % base_of(fam)))
     allpos = [v for v in (e["incl"], e["bp"], e["br"], e["ep"], e["er"]) if v > 0]
     if fam in CONSTANT_NESTING and r["cls"] == "err" and r["code"] in ERR_NEST and min(allpos or [99]) >= CONSTANT_NESTING[fam]:
         probs.append(("%d blocks one after the other, each nested %d deep at most, were stopped (%s) under %s: a depth counter is not taken down again" % (
             n, CONSTANT_NESTING[fam], obs_text(r), cfg.text()), "counter-leak:%s" % fam))
-    stack_eff = max(512, max([max(512, min(p, 2 ** 33)) for p in cfg.pragma], default=0) or e["stack"])
-    if r["cls"] == "err" and r["code"] in ERR_NEST and (not allpos or 2 * n + 8 <= min(allpos)) and 5 * n + 60 <= stack_eff and min(allpos or [9]) >= 5:
+    stack_eff = stack_eff_of(cfg, e)
+    if r["cls"] == "err" and r["code"] in ERR_NEST and (not allpos or 2 * n + 8 <= min(allpos)) and (per or 5) * (n + 1) + 60 <= stack_eff and min(allpos or [9]) >= 5:
         probs.append(("%s family nested only %d deep was stopped (%s) although every limit of %s is at least %d" % (
-            fam, n, obs_text(r), cfg.text(), min(allpos or [0])), "within-limit-rejected:%s" % fam))
+            fam, n, obs_text(r), cfg.text(), min(allpos or [0])), "within-limit-rejected:%s" % sig_fam(fam)))
     return probs
 
 
@@ -441,7 +581,7 @@ def shrink_crash(exe, wd, case, ok_below):
     lo, hi = ok_below, case.n
     best = case
     steps = 0
-    while hi - lo > max(1, hi // 50) and steps < 12:
+    while hi - lo > max(1, hi // 20) and steps < 8:
         mid = (lo + hi) // 2
         c = Case(case.fam, mid, case.cfg)
         c.res = run_case(exe, wd, c)
@@ -464,6 +604,22 @@ def graph_findings(ctx, g, d):
                     "# Lean: Hawk.Props.C14.residual_walks_closed + closed_walk_unbounded: call stacks of every length, no check fires\n" % (
                         C.REPO, " -> ".join(w + [w[0]]), ", ".join(members)),
                     found_input=False, sig="unguarded-cycle:%s" % name)
+    # call sites inside the known cycles: anything not in the table pinned in Props/C14.lean is a recursion that was added
+    try:
+        src = open(os.path.join(C.LEAN, "HawkModel", "Props", "C14.lean")).read()
+        m = re.search(r"def knownResidualSiteIds : List Nat := \[(.*?)\]", src, re.S)
+        known_ids = set(int(x) for x in re.findall(r"\d+", m.group(1)))
+    except Exception:
+        known_ids = None
+    if known_ids is not None:
+        for txt, i in g["residual_sites"]:
+            if i not in known_ids and txt.split(" -> ")[0] in {x for ms in g["residual_groups"].values() for x in ms}:
+                grp = [k for k, ms in g["residual_groups"].items() if txt.split(" -> ")[0] in ms][0]
+                if ("unguarded-cycle:%s" % grp) in dict(C.known_findings(ctx.id)):
+                    ctx.problem("impl", "a recursive call was added inside the known unguarded cycle %s: %s (not in knownResidualSiteIds of Props/C14.lean; "
+                                "theorem residual_edges_known fails)" % (grp, txt),
+                                "# python3 extract/callgraph.py --repo %s --sites | grep -F '%s'\n# id %d\n" % (C.REPO, txt.split(" [")[0], i),
+                                found_input=False, sig="new-residual-site:%d" % i)
     for i, f in enumerate(CG.LIMIT_FIELDS):
         if f not in g["limits_read"]:
             setby = "the CLI sets it to %d" % d["cli"][f] if d["cli"][f] else "hawk_setopt() accepts it (the CLI leaves it 0)"
@@ -512,6 +668,14 @@ def run(ctx):
     seen = set()
     cases = [c for c in cases if not (c.key() in seen or seen.add(c.key()))]
     ctx.log("%d cases (%d configurations x %d families)" % (len(cases), len(cfgs), len(FAMILIES)))
+    # quick tier: a harness in which run.c - the owner of the value stack and of the run-time counters - is compiled
+    # with the sanitizers and linked in front of the plain library (ASan's allocator puts red zones round rtx->stack);
+    # built while the plain cases run.  The thorough tier uses the fully sanitized library instead.
+    asan_build = None
+    if ctx.tier == "quick":
+        bex = concurrent.futures.ThreadPoolExecutor(max_workers=1)
+        asan_build = bex.submit(C.cc_harness, ctx, os.path.join(C.VERIF, "harness", "depth_h.c"),
+                                os.path.join(ctx.scratch, "depth_h_asanrun"), libdir, [os.path.join(C.REPO, "lib", "run.c")], True)
     # ---- run the real code
     t = time.time()
     big = [c for c in cases if c.n >= 30000]
@@ -524,6 +688,16 @@ def run(ctx):
             c.res = r
     ctx.log("ran %d cases on the plain build in %.1fs (slowest %.1fs)" % (len(cases), time.time() - t, max(c.res["secs"] for c in cases)))
     san_cases = []
+    if asan_build is not None:
+        sexe = asan_build.result()
+        for c in cases:
+            if stack_per_level(c.fam) and c.n <= 320 or (base_of(c.fam) in ("seq", "incl", "map") and c.n <= 100):
+                san_cases.append(Case(c.fam, c.n, c.cfg))
+        t = time.time()
+        with concurrent.futures.ThreadPoolExecutor(max_workers=10) as ex:
+            for c, r in zip(san_cases, ex.map(lambda c: run_case(sexe, wd, c, san=True), san_cases)):
+                c.res = r
+        ctx.log("ran %d cases of the call/recursion families on the harness with a sanitized run.c in %.1fs" % (len(san_cases), time.time() - t))
     if ctx.tier == "thorough":
         sdir = C.build_libhawk(ctx, san=True)
         sexe = C.cc_harness(ctx, os.path.join(C.VERIF, "harness", "depth_h.c"), out=os.path.join(ctx.scratch, "depth_h_san"), link_lib=sdir, san=True)
@@ -555,6 +729,8 @@ def run(ctx):
     for c in cases:
         groups.setdefault((c.fam, c.cfg.name), []).append(c)
     oracle_hits = 0
+    known_sigs = dict(C.known_findings(ctx.id))
+    shrinks = 0
     reported = set()
     for c in cases + san_cases:
         for what, sig in oracle_case(c, c.res, d):
@@ -563,7 +739,8 @@ def run(ctx):
                 continue
             reported.add(sig)
             rep = c
-            if (c.res["cls"].startswith("sig") or c.res["cls"] == "timeout") and c in cases:
+            if (c.res["cls"].startswith("sig") or c.res["cls"] == "timeout") and c in cases and shrinks < 3 and sig not in known_sigs:
+                shrinks += 1                                     # (the first few classes only: each shrink re-runs big programs)
                 below = [x.n for x in groups[(c.fam, c.cfg.name)] if x.n < c.n and x.res["cls"] in ("ok", "err")]
                 s = shrink_crash(exe, wd, c, max(below) if below else 0)
                 chk = run_case(exe, wd, s)                       # confirm the shrunk case
@@ -584,7 +761,10 @@ def run(ctx):
     for c in cases + san_cases:
         if c.res["cls"] not in ("ok", "err") or (c.res["cls"] == "err" and c.res["code"] not in ERR_NEST):
             continue                                             # already a property-oracle matter
-        if not agree(model_obs(c.model), impl_obs(c.res)):
+        mo = model_obs(c.model)
+        if mo[0] == "ok" and base_of(c.fam) == "left" and var_of(c.fam):
+            mo = ("ok", None)      # the model's `left` family prints the value of a+a+...; other operators: python oracle only
+        if not agree(mo, impl_obs(c.res)):
             mism.append(c)
     if mism:
         c = sorted(mism, key=lambda c: (c.n, c.fam))[0]
